@@ -242,10 +242,26 @@ def _c20_prepare(tmp, tier):
     lst = os.path.join(tmp, "c20_entries.txt")
     subprocess.run([os.path.join(drv.BUILD, "symgo"), "-dir", drv.REPO, "-gen-unions", gen, "-gen-list", lst,
                     "-pkgs", "./internal/yaml,./internal/codegen"], check=True, env=drv.ENV)
-    return {"gen": gen, "entries": [l.strip() for l in open(lst) if l.strip()]}
+    # documents declaring every key path of the published schemas (regenerated from /repo's current schemas/*.json)
+    docs = {}
+    for schema, pkg, prefix in (("compiler_passes", "yaml", "c20Passes"), ("veneers", "yaml", "c20Veneers"), ("pipeline", "codegen", "c20Pipeline")):
+        out = os.path.join(tmp, "zz_verif_c20_docs_%s.go" % schema)
+        subprocess.run([sys.executable, os.path.join(drv.VERIF, "tools", "gen_configdocs.py"), os.path.join(drv.REPO, "schemas", schema + ".json"),
+                        pkg, prefix, out, "github.com/grafana/cog/internal/zzverif"], check=True, stdout=subprocess.DEVNULL)
+        docs[schema] = out
+    return {"gen": gen, "entries": [l.strip() for l in open(lst) if l.strip()], "docs": docs}
 
 def _c20_runs(ctx):
-    return [Run("yaml", ["./internal/zzverif/hyaml"],
+    return [Run("strict_yaml", ["./internal/yaml"],
+                {"internal/yaml/zz_verif_c20_strict.go": "harness/pyaml/zz_verif_c20_strict.go",
+                 "internal/yaml/zz_verif_c20_docs_passes.go": ctx["docs"]["compiler_passes"],
+                 "internal/yaml/zz_verif_c20_docs_veneers.go": ctx["docs"]["veneers"]},
+                ["VerifC20StrictPasses", "VerifC20StrictVeneers"], "internal/yaml", needs_leaf=True),
+            Run("strict_pipeline", ["./internal/codegen"],
+                {"internal/codegen/zz_verif_c20_strict.go": "harness/pcodegen/zz_verif_c20_strict.go",
+                 "internal/codegen/zz_verif_c20_docs_pipeline.go": ctx["docs"]["pipeline"]},
+                ["VerifC20StrictPipeline"], "internal/codegen", needs_leaf=True),
+            Run("yaml", ["./internal/zzverif/hyaml"],
                 _h(("internal/zzverif/hyaml/zz_verif_c20.go", "harness/hyaml/zz_verif_c20.go"),
                    ("internal/zzverif/hyaml/zz_verif_c20_gen.go", ctx["gen"])),
                 ctx["entries"] + ["VerifC20ObjectReference", "VerifC20FieldReference"], "internal/zzverif/hyaml", test_pkg_name="hyaml", needs_leaf=True)]
@@ -481,6 +497,8 @@ def _add_run(pid, run):
         PROPERTIES[pid]["runs"] = list(old) + [run]
 
 _add_run("C08", Run("openapi_constraints", ["./internal/openapi"], OPENAPI_HARNESS, ["VerifC08OpenAPIConstraints"], "internal/openapi", needs_leaf=True, judge="prefix:C08"))
+_add_run("C04", Run("yaml_types", ["./internal/yaml"], {"internal/yaml/zz_verif_c04_yaml.go": "harness/pyaml/zz_verif_c04_yaml.go"}, ["VerifC04YAMLTypes", "VerifC04YAMLVeneers"], "internal/yaml",
+                    needs_leaf=True, panics="violation", judge="panic", flags=["-hangs"]))
 _add_run("C03", Run("user_passes", ["./internal/ast/compiler"], COMPILER_HARNESS, ["VerifC03UserPasses"], "internal/ast/compiler", needs_leaf=True, repeat=400, judge="prefix:C03"))
 _add_run("C03", Run("converter", ["./internal/zzverif/hveneers"], VENEERS_HARNESS, ["VerifC14UnionLists"], "internal/zzverif/hveneers", test_pkg_name="hveneers",
                     needs_leaf=True, repeat=400, judge="prefix:C03"))
